@@ -477,15 +477,16 @@ package genetics
 //@   assert [cut.kidA.both] forall a, b :: 0 <= a && a < i1 && 0 <= b && b < size2 && og.Genes[b].InnovationNum == g.Genes[a].InnovationNum && g.Genes[a].InnovationNum < chosenGene.InnovationNum ==> 0 <= sel(gKidA, a) && sel(gKidA, a) < len(newGenes) && newGenes[sel(gKidA, a)].InnovationNum == g.Genes[a].InnovationNum @ after 1 NewGeneCopy
 //@   assert [cut.mergeA] forall a :: 0 <= a && a < i1 ==> (i2 < size2 ==> g.Genes[a].InnovationNum < og.Genes[i2].InnovationNum) @ after 1 NewGeneCopy
 //@   assert [cut.mergeB] forall b :: 0 <= b && b < i2 ==> (i1 < size1 ==> og.Genes[b].InnovationNum < g.Genes[i1].InnovationNum) @ after 1 NewGeneCopy
-//@   assert [cut.othRangeA] forall k :: 0 <= k && k < len(newGenes) && sel(gSrc, k) >= 0 && sel(gOth, k) >= 0 ==> sel(gOth, k) < i2 && og.Genes[sel(gOth, k)].InnovationNum == newGenes[k].InnovationNum @ after 1 NewGeneCopy
-//@   assert [cut.othRangeB] forall k :: 0 <= k && k < len(newGenes) && sel(gSrc, k) < 0 && sel(gOth, k) >= 0 ==> sel(gOth, k) < i1 && g.Genes[sel(gOth, k)].InnovationNum == newGenes[k].InnovationNum @ after 1 NewGeneCopy
+//@   assert [cut.othRangeAr] forall k :: 0 <= k && k < len(newGenes) && sel(gSrc, k) >= 0 && sel(gOth, k) >= 0 ==> sel(gOth, k) < i2 @ after 1 NewGeneCopy
+//@   assert [cut.othRangeAv] forall k :: 0 <= k && k < len(newGenes) && sel(gSrc, k) >= 0 && sel(gOth, k) >= 0 ==> og.Genes[sel(gOth, k)].InnovationNum == newGenes[k].InnovationNum @ after 1 NewGeneCopy
+//@   assert [cut.othRangeBr] forall k :: 0 <= k && k < len(newGenes) && sel(gSrc, k) < 0 && sel(gOth, k) >= 0 ==> sel(gOth, k) < i1 @ after 1 NewGeneCopy
+//@   assert [cut.othRangeBv] forall k :: 0 <= k && k < len(newGenes) && sel(gSrc, k) < 0 && sel(gOth, k) >= 0 ==> g.Genes[sel(gOth, k)].InnovationNum == newGenes[k].InnovationNum @ after 1 NewGeneCopy
 //@   assert [cut.othNoneA] forall k, b :: 0 <= k && k < len(newGenes) && sel(gSrc, k) >= 0 && sel(gOth, k) < 0 && 0 <= b && b < size2 ==> og.Genes[b].InnovationNum != newGenes[k].InnovationNum @ after 1 NewGeneCopy
 //@   assert [cut.othNoneB] forall k, a :: 0 <= k && k < len(newGenes) && sel(gSrc, k) < 0 && sel(gOth, k) < 0 && 0 <= a && a < size1 ==> g.Genes[a].InnovationNum != newGenes[k].InnovationNum @ after 1 NewGeneCopy
 //@   assert [cut.onlyFitter] forall k :: 0 <= k && k < len(newGenes) ==> (sel(gSrc, k) >= 0 && !p1better ==> sel(gOth, k) >= 0) && (sel(gSrc, k) < 0 && p1better ==> sel(gOth, k) >= 0) @ after 1 NewGeneCopy
 //@   assert [cut.enSingleA] forall k :: 0 <= k && k < len(newGenes) && sel(gOth, k) < 0 && sel(gSrc, k) >= 0 ==> newGenes[k].IsEnabled == g.Genes[sel(gSrc, k)].IsEnabled @ after 1 NewGeneCopy
 //@   assert [cut.enSingleB] forall k :: 0 <= k && k < len(newGenes) && sel(gOth, k) < 0 && sel(gSrc, k) < 0 ==> newGenes[k].IsEnabled == og.Genes[0 - sel(gSrc, k) - 1].IsEnabled @ after 1 NewGeneCopy
-//@   assert [cut.enBothA] forall k :: 0 <= k && k < len(newGenes) && sel(gOth, k) >= 0 && sel(gSrc, k) >= 0 && g.Genes[sel(gSrc, k)].IsEnabled && og.Genes[sel(gOth, k)].IsEnabled ==> newGenes[k].IsEnabled @ after 1 NewGeneCopy
-//@   assert [cut.enBothB] forall k :: 0 <= k && k < len(newGenes) && sel(gOth, k) >= 0 && sel(gSrc, k) < 0 && og.Genes[0 - sel(gSrc, k) - 1].IsEnabled && g.Genes[sel(gOth, k)].IsEnabled ==> newGenes[k].IsEnabled @ after 1 NewGeneCopy
+//@   assert [cut.enBothK] forall k, a, b :: 0 <= k && k < len(newGenes) && 0 <= a && a < size1 && 0 <= b && b < size2 && newGenes[k].InnovationNum == g.Genes[a].InnovationNum && g.Genes[a].InnovationNum == og.Genes[b].InnovationNum && g.Genes[a].IsEnabled && og.Genes[b].IsEnabled ==> newGenes[k].IsEnabled @ after 1 NewGeneCopy
 //@   assert [cut.belowNext] forall k :: 0 <= k && k < len(newGenes) ==> (i1 < size1 ==> newGenes[k].InnovationNum < g.Genes[i1].InnovationNum) && (i2 < size2 ==> newGenes[k].InnovationNum < og.Genes[i2].InnovationNum) @ after 1 NewGeneCopy
 //@   assert [cut.enabledFrame] forall x *Gene :: wasAllocated(x) ==> x.IsEnabled == old(x.IsEnabled) @ after 1 NewGeneCopy
 //@   assert [cut.nodeMemFrame] forall b :: wasAllocated(b) ==> Mem[*network.NNode][b] == old(Mem[*network.NNode][b]) @ after 1 NewGeneCopy
@@ -498,6 +499,7 @@ package genetics
 //@   assert [cut.aBelow] forall a :: 0 <= a && a < i1 ==> g.Genes[a].InnovationNum <= chosenGene.InnovationNum @ after 1 NewGeneCopy
 //@   assert [cut.bBelow] forall b :: 0 <= b && b < i2 ==> og.Genes[b].InnovationNum <= chosenGene.InnovationNum @ after 1 NewGeneCopy
 //@   assert [cut.parents] nonNilGenes(g.Genes) && nonNilGenes(og.Genes) && sortedLT(g.Genes) && sortedLT(og.Genes) @ after 1 NewGeneCopy
+//@   assert [cut.consistent] linksConsistent(g, g) && linksConsistent(g, og) && linksConsistent(og, og) @ after 1 NewGeneCopy
 //@   assert [cut.mono] forall b :: wasAllocated(b) ==> allocated(b) @ after 1 NewGeneCopy
 //@   assert [cut.noneB] srcIsA(i1, chosenGene, g) && !(i2 > 0 && og.Genes[i2-1].InnovationNum == chosenGene.InnovationNum) ==> (forall b :: 0 <= b && b < size2 ==> og.Genes[b].InnovationNum != chosenGene.InnovationNum) @ after 1 NewGeneCopy
 //@   assert [cut.noneA] !srcIsA(i1, chosenGene, g) && !(i1 > 0 && g.Genes[i1-1].InnovationNum == chosenGene.InnovationNum) ==> (forall a :: 0 <= a && a < size1 ==> g.Genes[a].InnovationNum != chosenGene.InnovationNum) @ after 1 NewGeneCopy
@@ -507,7 +509,7 @@ package genetics
 //@   set gOth = upd(gOth, len(newGenes), srcIsA(i1, chosenGene, g) ? ((i2 > 0 && og.Genes[i2-1].InnovationNum == chosenGene.InnovationNum) ? i2-1 : 0-1) : ((i1 > 0 && g.Genes[i1-1].InnovationNum == chosenGene.InnovationNum) ? i1-1 : 0-1)) @ after 1 NewGeneCopy
 //@   set gKidA = upd(gKidA, i1-1, (i1 > 0 && g.Genes[i1-1].InnovationNum == chosenGene.InnovationNum) ? len(newGenes) : sel(gKidA, i1-1)) @ after 1 NewGeneCopy
 //@   set gKidB = upd(gKidB, i2-1, (i2 > 0 && og.Genes[i2-1].InnovationNum == chosenGene.InnovationNum) ? len(newGenes) : sel(gKidB, i2-1)) @ after 1 NewGeneCopy
-//@   cut keep(cut.bounds, cut.nodes, cut.genesWF, cut.srcRange, cut.better, cut.new, cut.chosen, cut.distinct, cut.mono, cut.parents, cut.chosenBelowNext, cut.childBelowChosen, cut.aBelow, cut.bBelow, cut.geneMemFrame, cut.enabledFrame) @ after 1 NewGeneCopy
+//@   cut keep(cut.bounds, cut.nodes, cut.genesWF, cut.srcRange, cut.better, cut.new, cut.chosen, cut.distinct, cut.mono, cut.parents, cut.chosenBelowNext, cut.childBelowChosen, cut.aBelow, cut.bBelow, cut.geneMemFrame, cut.enabledFrame, cut.disable, cut.consistent) @ after 1 NewGeneCopy
 //@   requires g != nil && og != nil && parentShape(g, g) && parentShape(og, g) && len(g.Traits) == len(og.Traits) && len(g.Traits) >= 1 && neat.ErrTraitsParametersCountMismatch != nil
 //@   requires forall i :: 0 <= i && i < len(g.Traits) ==> len(g.Traits[i].Params) == len(og.Traits[i].Params)
 //@   requires [commonAncestry] linksConsistent(g, g) && linksConsistent(g, og) && linksConsistent(og, og)
@@ -530,6 +532,7 @@ package genetics
 //@     invariant nonNilNodes(newNodes) && sortedNodesLE(newNodes)
 //@     invariant forall b :: wasAllocated(b) ==> Mem[*network.NNode][b] == old(Mem[*network.NNode][b])
 //@   loop 2:
+//@     focus bounds, better, srcRange, mergeA, mergeB, geneMemFrame
 //@     invariant [bounds] 0 <= i1 && i1 <= size1 && 0 <= i2 && i2 <= size2 && size1 == len(g.Genes) && size2 == len(og.Genes) && len(newTraits) == len(g.Traits) && childNodesMap != nil && fresh(childNodesMap)
 //@     invariant [traits] forall i :: 0 <= i && i < len(newTraits) ==> newTraits[i] != nil && newTraits[i].Id == g.Traits[i].Id && (forall k :: 0 <= k && k < len(g.Traits[i].Params) ==> newTraits[i].Params[k] == (g.Traits[i].Params[k] + og.Traits[i].Params[k]) / 2.0)
 //@     invariant [nodes] nonNilNodes(newNodes) && sortedNodesLE(newNodes) && fresh(newNodes) && fresh(newGenes)
@@ -544,15 +547,16 @@ package genetics
 //@     invariant [kidA.both] forall a, b :: 0 <= a && a < i1 && 0 <= b && b < size2 && og.Genes[b].InnovationNum == g.Genes[a].InnovationNum ==> 0 <= sel(gKidA, a) && sel(gKidA, a) < len(newGenes) && newGenes[sel(gKidA, a)].InnovationNum == g.Genes[a].InnovationNum
 //@     invariant [mergeA] forall a :: 0 <= a && a < i1 ==> (i2 < size2 ==> g.Genes[a].InnovationNum < og.Genes[i2].InnovationNum)
 //@     invariant [mergeB] forall b :: 0 <= b && b < i2 ==> (i1 < size1 ==> og.Genes[b].InnovationNum < g.Genes[i1].InnovationNum)
-//@     invariant [othRangeA] forall k :: 0 <= k && k < len(newGenes) && sel(gSrc, k) >= 0 && sel(gOth, k) >= 0 ==> sel(gOth, k) < i2 && og.Genes[sel(gOth, k)].InnovationNum == newGenes[k].InnovationNum
-//@     invariant [othRangeB] forall k :: 0 <= k && k < len(newGenes) && sel(gSrc, k) < 0 && sel(gOth, k) >= 0 ==> sel(gOth, k) < i1 && g.Genes[sel(gOth, k)].InnovationNum == newGenes[k].InnovationNum
+//@     invariant [othRangeAr] forall k :: 0 <= k && k < len(newGenes) && sel(gSrc, k) >= 0 && sel(gOth, k) >= 0 ==> sel(gOth, k) < i2
+//@     invariant [othRangeAv] forall k :: 0 <= k && k < len(newGenes) && sel(gSrc, k) >= 0 && sel(gOth, k) >= 0 ==> og.Genes[sel(gOth, k)].InnovationNum == newGenes[k].InnovationNum
+//@     invariant [othRangeBr] forall k :: 0 <= k && k < len(newGenes) && sel(gSrc, k) < 0 && sel(gOth, k) >= 0 ==> sel(gOth, k) < i1
+//@     invariant [othRangeBv] forall k :: 0 <= k && k < len(newGenes) && sel(gSrc, k) < 0 && sel(gOth, k) >= 0 ==> g.Genes[sel(gOth, k)].InnovationNum == newGenes[k].InnovationNum
 //@     invariant [othNoneA] forall k, b :: 0 <= k && k < len(newGenes) && sel(gSrc, k) >= 0 && sel(gOth, k) < 0 && 0 <= b && b < size2 ==> og.Genes[b].InnovationNum != newGenes[k].InnovationNum
 //@     invariant [othNoneB] forall k, a :: 0 <= k && k < len(newGenes) && sel(gSrc, k) < 0 && sel(gOth, k) < 0 && 0 <= a && a < size1 ==> g.Genes[a].InnovationNum != newGenes[k].InnovationNum
 //@     invariant [onlyFitter] forall k :: 0 <= k && k < len(newGenes) ==> (sel(gSrc, k) >= 0 && !p1better ==> sel(gOth, k) >= 0) && (sel(gSrc, k) < 0 && p1better ==> sel(gOth, k) >= 0)
 //@     invariant [enSingleA] forall k :: 0 <= k && k < len(newGenes) && sel(gOth, k) < 0 && sel(gSrc, k) >= 0 ==> newGenes[k].IsEnabled == g.Genes[sel(gSrc, k)].IsEnabled
 //@     invariant [enSingleB] forall k :: 0 <= k && k < len(newGenes) && sel(gOth, k) < 0 && sel(gSrc, k) < 0 ==> newGenes[k].IsEnabled == og.Genes[0 - sel(gSrc, k) - 1].IsEnabled
-//@     invariant [enBothA] forall k :: 0 <= k && k < len(newGenes) && sel(gOth, k) >= 0 && sel(gSrc, k) >= 0 && g.Genes[sel(gSrc, k)].IsEnabled && og.Genes[sel(gOth, k)].IsEnabled ==> newGenes[k].IsEnabled
-//@     invariant [enBothB] forall k :: 0 <= k && k < len(newGenes) && sel(gOth, k) >= 0 && sel(gSrc, k) < 0 && og.Genes[0 - sel(gSrc, k) - 1].IsEnabled && g.Genes[sel(gOth, k)].IsEnabled ==> newGenes[k].IsEnabled
+//@     invariant [enBothK] forall k, a, b :: 0 <= k && k < len(newGenes) && 0 <= a && a < size1 && 0 <= b && b < size2 && newGenes[k].InnovationNum == g.Genes[a].InnovationNum && g.Genes[a].InnovationNum == og.Genes[b].InnovationNum && g.Genes[a].IsEnabled && og.Genes[b].IsEnabled ==> newGenes[k].IsEnabled
 //@     invariant [belowNext] forall k :: 0 <= k && k < len(newGenes) ==> (i1 < size1 ==> newGenes[k].InnovationNum < g.Genes[i1].InnovationNum) && (i2 < size2 ==> newGenes[k].InnovationNum < og.Genes[i2].InnovationNum)
 //@     invariant [enabledFrame] forall x *Gene :: wasAllocated(x) ==> x.IsEnabled == old(x.IsEnabled)
 //@     invariant [nodeMemFrame] forall b :: wasAllocated(b) ==> Mem[*network.NNode][b] == old(Mem[*network.NNode][b])
